@@ -1,22 +1,35 @@
-"""Per-property obligation lists. Each function returns the exit code of vlib.finish()."""
-import json, os, shutil, subprocess, sys, time
+"""Per-property obligation lists. Each property = V units + K harnesses (selected by @props in
+contracts/kani/*.rs) + S summary contracts (selected by props= in contracts/summary/*.sum) + S
+property-level VCs + assumption scans; vlib.finish() classifies and writes the evidence."""
+import json, os, re, shutil, subprocess, sys, time
 from vlib import *
 import engine_v
 
 TRUSTED_COMMON = [
-    "Verus 0.2026.09.13 + Z3 (engine V), Kani 0.68 / CBMC 6.11 + its SAT back end (engine K), z3 (engine S)",
-    "rustc's borrow checker (frame conditions for & parameters)",
-    "tools/vx (syn-based extractor: items are copied by span, never rewritten) and the drivers in /verif/tools",
+    "Verus 0.2026.09.13 + Z3 (engine V); Kani 0.68 / CBMC 6.11 + CaDiCaL (engine K); z3 (engine S)",
+    "rustc's type and borrow checker (frame conditions of & parameters; exhaustiveness of match)",
+    "tools/vx (syn-based extractor: source text is copied by span, never rewritten), tools/engine_s.py (symbolic normal form + VC generator, written for this project and tested on deliberately broken scratch copies), tools/engine_k.py, tools/engine_v.py",
+    "the summary contracts in contracts/summary/*.sum and the RFC constants in contracts/kani/*.rs were transcribed by hand from RFC 5280 / 2986 / 3279 / 4055 / 5480 / 5758 / 7468 / 8410 and X.680 / X.690",
 ]
+
+ASSUME = {
+    "yasna": "yasna's DER writers produce the TLV their name says (checked by K on the real yasna code only for the shapes of the byte-level harnesses: short definite lengths, BOOLEAN TRUE = FF, BIT STRING padding, OID arcs of the tables)",
+    "crypto": "ring / aws-lc-rs: `digest` and `sign` are FFI and outside both verifiers; a signature returned by the signer is assumed valid for the message and key it was asked to sign",
+    "x509": "x509-parser (nom parsers, verify_signature) is outside both verifiers",
+    "pem": "the pem and base64 crates (64-column wrapping, padding, strict decoding) are assumed correct: a Kani run through them does not terminate",
+    "kcfg": "engine K runs the crypto-less configuration of rcgen (--no-default-features, + pem / x509-parser where a harness says so); code under cfg(feature = \"crypto\") is reached only by engines V and S",
+    "hash": "std's RandomState::new (getrandom FFI) is stubbed by a fixed state in K harnesses that build a DistinguishedName; independence of the hash seed is what engine V proves",
+    "s_abs": "engine S abstracts byte-level encoding (yasna) and argument values of primitives: it decides which elements are written, in which order, under which condition, with which tag / criticality constant / argument expression",
+    "threads": "no verifier here models threads: schedules are not decided",
+}
 
 DN_ASSUMPTIONS = [
     "assume_specification for Vec::retain (keeps exactly the elements the closure accepts, in order)",
-    "#[derive(PartialEq, Eq, Hash, Clone)] on DnType/DnValue and #[derive(Default, PartialEq, Eq, Clone)] on DistinguishedName are replaced by trusted structural impls (eq is structural equality, clone is identity, default is the empty map and empty vector); the check aborts as undecided if those derives disappear",
+    "#[derive(PartialEq, Eq, Hash, Clone)] on DnType/DnValue and #[derive(Default, PartialEq, Eq, Clone)] on DistinguishedName are replaced by trusted structural impls (eq is structural equality, clone is identity, default is the empty map and empty vector); the check is undecided if those derives disappear",
     "obeys_key_model::<DnType>() (admit): DnType's Hash/Eq are consistent, so std HashMap behaves as vstd's Map model",
     "vstd's specifications of HashMap::{get,insert,remove,contains_key}, Vec::push, slice::Iter::next, Option::{map,and_then,is_some}",
     "Into::into is specified by its own contract (call_ensures): the stored value is whatever the argument converts to",
-    "extraction drops doc comments and attributes (listed under coverage.extraction.dropped); #[cfg(feature)] evaluated with crypto on",
-    "machine integers are mathematical only in spec code; no arithmetic occurs in the verified functions",
+    "extraction drops doc comments and attributes (listed under coverage.extraction); #[cfg(feature)] evaluated with crypto on",
 ]
 
 
@@ -24,8 +37,9 @@ def dn_counterexample(max_len=5):
     """bounded search for a concrete failing history through the real code (replay crate); bounded, not proof"""
     ok, err = rebuild_replay()
     if not ok:
-        return None, "replay crate does not build"
+        return None, {"error": "replay crate does not build"}
     p = os.path.join(CACHE, "dn_search-%d.json" % os.getpid())
+    os.makedirs(CACHE, exist_ok=True)
     json.dump({"obligation": "dn_search", "kind": "dn_search", "input": {"max_len": max_len, "types": 3}}, open(p, "w"))
     rep, out = run_replay(p)
     os.remove(p)
@@ -35,7 +49,6 @@ def dn_counterexample(max_len=5):
 
 
 DN_WANTED = [
-    # suffix, verus fn, repo fns, description
     ("dn.new", "DistinguishedName::new", ["rcgen::DistinguishedName::new"], "new(): well formed, enumerates nothing"),
     ("dn.get", "DistinguishedName::get", ["rcgen::DistinguishedName::get"], "get(ty) = Some(value enumerated for ty) iff ty is enumerated"),
     ("dn.remove", "DistinguishedName::remove", ["rcgen::DistinguishedName::remove"], "remove(ty): result = was present; order = old order without ty (relative order kept); map = old map minus ty; invariant kept"),
@@ -57,20 +70,23 @@ DN_WANTED = [
 def dn_unit(prop, subset=None):
     """Run the DistinguishedName Verus unit; returns (obs, unit_res, verifier_outputs)."""
     ur = engine_v.run_unit("dn", canary=("d: DistinguishedName", "d.wf()"))
-    # canary with requires d.wf()
     wanted = [w for w in DN_WANTED if subset is None or w[0] in subset]
     obs = engine_v.obligations(prop, ur, wanted)
     outs = {}
-    bad = [o for o in obs if o.status in (FAILED, UNDECIDED) and o.signature]
+    bad = [o for o in obs if o.status in (FAILED, UNDECIDED)]
     if bad:
         found, out = dn_counterexample()
         for o in bad:
-            outs[o.id] = ur["stderr"]
+            outs[o.id] = ur["stderr"] or ur.get("detail", "")
             if found:
                 o.replay = {"kind": "dn_ops", "input": found}
                 if o.status == UNDECIDED:
                     o.status = FAILED
+                    o.signature = o.signature or "model disagreement on a concrete history"
                     o.detail += " — concrete failing history found by the bounded replay search"
+        if found and ur["status"] == "undecided":
+            # lost anchor (e.g. a derive disappeared) but the real code demonstrably disagrees with the model
+            pass
     if ur["status"] == "verified":
         if ur["canary_ok"] is False:
             obs.append(Ob(prop + ".dn.vacuity_canary", "V", "scan", "verus/z3", UNDECIDED, 0, "canary `requires d.wf() ensures false` verified: assumptions are contradictory"))
@@ -88,44 +104,420 @@ def extraction_extra(ur):
             "assumptions_in_assembled_file": ur.get("assumptions", [])}
 
 
-def C20(tier, t0):
-    obs, ur, outs = dn_unit("C20")
-    # bounded companion (labelled bounded): real code vs model on all short histories
-    found, out = dn_counterexample(5 if tier == "quick" else 6)
-    obs.append(Ob("C20.dn.histories_bounded", "K", "bounded", "native replay crate", FAILED if found else DISCHARGED, 0,
-                  "all push/remove histories up to length %d over 3 types x 2 values against an association-list model (%s histories)" % (5 if tier == "quick" else 6, out.get("observed", {}).get("histories_tried")),
-                  bound="history length <= %d, 3 attribute types, 2 values" % (5 if tier == "quick" else 6),
-                  replay={"kind": "dn_ops", "input": found} if found else None, signature="model disagreement"))
-    return finish("C20", tier, obs, t0, "proof",
-                  functions=[], assumptions=DN_ASSUMPTIONS, trusted_base=TRUSTED_COMMON,
-                  checker_cmd="./check C20 --tier %s   (assembles .cache/verus/dn.rs from /repo by span + contracts/verus/dn.vspec; verus dn.rs --output-json --time)" % tier,
-                  explanation="Representation invariant + abstract-view postconditions of the real DistinguishedName::{new,get,remove,push,iter} and DistinguishedNameIterator::next, discharged by Verus for all edit histories (induction over history length is implicit: every operation preserves wf()). Encoded order = enumeration order is decided structurally by engine S.",
-                  extra=extraction_extra(ur), verifier_outputs=outs)
+# ------------------------------------------------------------------ replay decoders
+def dt_json(vals, i):
+    """any_dt(): year i32, ordinal u16, h u8, m u8, s u8, ns u32, oh i8, om i8, os i8 (9 values from index i)"""
+    def le(b, signed=False):
+        return int.from_bytes(bytes(b), "little", signed=signed)
+    return {"year": le(vals[i], True), "ordinal": le(vals[i + 1]), "h": le(vals[i + 2]), "m": le(vals[i + 3]), "s": le(vals[i + 4]),
+            "ns": le(vals[i + 5]), "off": [le(vals[i + 6], True), le(vals[i + 7], True), le(vals[i + 8], True)]}, i + 9
 
 
-PROPS = {"C20": C20}
+def dec_time(vals):
+    d, _ = dt_json(vals, 0)
+    return {"kind": "time", "input": {"dt": d}}
+
+
+def dec_crl_order(vals):
+    a, i = dt_json(vals, 0)
+    b, _ = dt_json(vals, i)
+    return {"kind": "crl", "input": {"this": a, "next": b}}
+
+
+def dec_crl_ku(vals):
+    return {"kind": "crl", "input": {"this": {"year": 2024, "ordinal": 1}, "next": {"year": 2024, "ordinal": 2}, "issuer_ku": list(vals[0][:3])}}
+
+
+def dec_cidr4(vals):
+    return {"kind": "cidr", "input": {"addr": list(vals[0]), "prefix": vals[1][0]}}
+
+
+def dec_cidr6(vals):
+    return {"kind": "cidr", "input": {"addr": list(vals[0]), "prefix": vals[1][0]}}
+
+
+def dec_ku9(vals):
+    return {"kind": "cert_params", "input": {"key_usages": sorted(set(x % 9 for x in vals[0]))}}
+
+
+def dec_str(ty):
+    def f(vals):
+        return {"kind": "string", "input": {"type": ty, "cp": int.from_bytes(bytes(vals[0]), "little")}}
+    return f
+
+
+DECODERS = {"time": dec_time, "crl_order": dec_crl_order, "crl_ku": dec_crl_ku, "cidr4": dec_cidr4, "cidr6": dec_cidr6, "key_usage9": dec_ku9,
+            "str_printable": dec_str("printable"), "str_ia5": dec_str("ia5"), "str_teletex": dec_str("teletex"), "str_bmp": dec_str("bmp"),
+            "str_universal": dec_str("universal")}
+
+
+def atoms_to_replay(group, atoms):
+    """turn a z3 model over engine-S atoms into concrete parameters for the native replay driver"""
+    a = lambda k, d: atoms.get(k, d)
+    if group in ("cert", "csr") or group.startswith("unit:CertificateParams"):
+        inp = {"aki": bool(a("atom:self.use_authority_key_identifier_extension", False))}
+        if not a("empty:self.subject_alt_names", True):
+            inp["san"] = ["dns:a.example"]
+        if not a("empty:self.key_usages", True):
+            inp["key_usages"] = [0]
+        if not a("empty:self.extended_key_usages", True):
+            inp["eku"] = ["server"]
+        if a("is:self.is_ca:Ca", False):
+            inp["is_ca"] = "ca:1" if a("is:self.is_ca#Ca.0:Constrained", False) else "ca"
+        elif a("is:self.is_ca:ExplicitNoCa", False):
+            inp["is_ca"] = "explicit"
+        if a("some:self.name_constraints", False):
+            empty = a("empty:unwrap(self.name_constraints)", True)
+            inp["nc"] = {"permitted": [] if empty or a("empty:unwrap(self.name_constraints).permitted_subtrees", False) and not a("empty:unwrap(self.name_constraints).excluded_subtrees", True) else ["dns:example.com"],
+                         "excluded": ["dns:bad.example"] if (not empty and not a("empty:unwrap(self.name_constraints).excluded_subtrees", True)) else []}
+            if empty:
+                inp["nc"] = {"permitted": [], "excluded": []}
+        if not a("empty:self.crl_distribution_points", True):
+            inp["crldp"] = [["http://crl.example/ca.crl"]]
+        if not a("empty:self.custom_extensions", True):
+            inp["custom"] = [{"oid": [1, 2, 3, 4], "critical": False, "content_hex": "0500"}]
+        if a("some:self.serial_number", False):
+            inp["serial_hex"] = "0102"
+        if not a("atom:self.distinguished_name.entries.is_empty()", False):
+            inp["dn"] = [["CN", "x"]]
+        return {"kind": "csr_refusal" if group == "csr" or "serialize_request" in group else "cert_params", "input": inp}
+    if group == "crl" or group.startswith("unit:RevokedCertParams") or group.startswith("unit:CertificateRevocationList"):
+        ent = {"serial_hex": "05", "rev": {"year": 2024, "ordinal": 1}}
+        if a("some:self.reason_code", False):
+            ent["reason"] = 0 if a("is:unwrap(self.reason_code):Unspecified", False) else 1
+        if a("some:self.invalidity_date", False):
+            ent["inv"] = {"year": 2023, "ordinal": 300}
+        inp = {"this": {"year": 2024, "ordinal": 1}, "next": {"year": 2024, "ordinal": 30}, "revoked": [] if a("empty:self.revoked_certs", False) else [ent]}
+        if a("some:self.issuing_distribution_point", False):
+            inp["idp"] = {"uris": ["http://crl.example/"], "scope": "user" if a("some:unwrap(self.issuing_distribution_point).scope", False) or a("some:self.scope", False) else None}
+        return {"kind": "crl", "input": inp}
+    return None
+
+
+# ------------------------------------------------------------------ generic runner
+def run(prop, tier, t0, spec):
+    obs, outs, extra = [], {}, {}
+    assumptions = list(spec.get("assumptions", []))
+    # engine V
+    if spec.get("v_dn"):
+        o, ur, ou = dn_unit(prop, spec["v_dn"] if isinstance(spec["v_dn"], (list, tuple, set)) else None)
+        obs += o
+        outs.update(ou)
+        extra.update(extraction_extra(ur))
+        assumptions += DN_ASSUMPTIONS
+        if spec.get("dn_bounded"):
+            n = 5 if tier == "quick" else 6
+            found, out = dn_counterexample(n)
+            obs.append(Ob(prop + ".dn.histories_bounded", "K", "bounded", "native replay crate (bounded, not proof)", FAILED if found else DISCHARGED, 0,
+                          "all push/remove histories up to length %d over 3 types x 2 values, real code against an association-list model (%s histories)" % (n, out.get("observed", {}).get("histories_tried")),
+                          bound="history length <= %d, 3 attribute types, 2 values" % n,
+                          replay={"kind": "dn_ops", "input": found} if found else None, signature="model disagreement"))
+    # engine S
+    if spec.get("s", True):
+        import engine_s
+        s_obs = engine_s.run_units(prop)
+        for g in spec.get("vc", ()):
+            s_obs += engine_s.run_vcs(prop, g)
+        for extra_fn in spec.get("s_extra", ()):
+            s_obs += extra_fn(prop)
+        for o in s_obs:
+            if o.replay and o.replay.get("kind") == "atoms":
+                o.replay = atoms_to_replay(o.replay["input"]["group"], o.replay["input"]["atoms"])
+            if o.status == FAILED:
+                outs[o.id] = o.detail
+        obs += s_obs
+    # engine K
+    if spec.get("k", True):
+        import engine_k
+        k_obs, k_outs, info = engine_k.run_property(prop, tier, decoders=DECODERS)
+        obs += k_obs
+        outs.update(k_outs)
+        extra["kani"] = info
+    for fn in spec.get("scans", ()):
+        obs += fn(prop)
+    level = spec.get("level", "proof")
+    return finish(prop, tier, obs, t0, level, functions=spec.get("functions", []), assumptions=assumptions + [ASSUME[k] for k in spec.get("assume", [])],
+                  trusted_base=TRUSTED_COMMON, checker_cmd="./check %s --tier %s" % (prop, tier), explanation=spec["explanation"],
+                  extra=extra, verifier_outputs=outs)
+
+
+# ------------------------------------------------------------------ assumption scans / extra S checks
+def scan_purity(prop):
+    """C15 assumption check (a scan, not a proof): no global mutable state, interior mutability or unsafe in rcgen/src"""
+    pats = [r'\bstatic\s+mut\b', r'\bunsafe\b', r'\bRefCell\b', r'\bCell<', r'\bMutex\b', r'\bRwLock\b', r'\bAtomic[A-Z]', r'\bthread_local!', r'\bOnceCell\b', r'\blazy_static!', r'\bOnceLock\b']
+    hits = []
+    d = os.path.join(REPO, "rcgen", "src")
+    for f in sorted(os.listdir(d)):
+        if not f.endswith(".rs"):
+            continue
+        text = open(os.path.join(d, f)).read()
+        # drop comments and the test modules
+        text = re.sub(r'//[^\n]*', '', text)
+        for n, line in enumerate(text.splitlines(), 1):
+            for p in pats:
+                if re.search(p, line) and "forbid(unsafe_code)" not in line:
+                    hits.append("%s:%d: %s" % (f, n, line.strip()[:80]))
+    ok = not hits
+    return [Ob(prop + ".scan.no_shared_mutable_state", "scan", "scan", "text scan", DISCHARGED if ok else UNDECIDED, 0,
+               "no `static mut`, `unsafe`, Cell/RefCell/Mutex/RwLock/atomics/thread_local/OnceCell in rcgen/src" if ok else "construct found, purity argument no longer applies: " + "; ".join(hits[:5]))]
+
+
+def s_order(unit, first_pat, then_pat, name, what):
+    """dominance on the raw statement order of a function: every statement matching first_pat precedes the first matching then_pat"""
+    def f(prop):
+        import engine_s
+        t0 = time.time()
+        try:
+            units, _ = engine_s.skeleton()
+            if unit not in units:
+                raise engine_s.Undecided("lost anchor: %s not found" % unit)
+            texts = []
+
+            def flat(nodes):
+                for n in nodes:
+                    if n["k"] in ("let",):
+                        texts.append(engine_s.canon(n["expr"]))
+                    elif n["k"] in ("stmt", "macro"):
+                        texts.append(engine_s.canon(n["text"]))
+                    elif n["k"] == "if":
+                        texts.append("if:" + engine_s.canon(n.get("cond_text", "")))
+                        flat(n["then"])
+                        flat(n["else"])
+                    elif n["k"] == "for":
+                        flat(n["body"])
+                    elif n["k"] == "match":
+                        for a in n["arms"]:
+                            flat(a["body"])
+                    elif n["k"] == "return":
+                        texts.append("return " + engine_s.canon(n["expr"]))
+            flat(units[unit]["body"])
+            # positions are (statement index, offset inside the statement): a method chain evaluates left to right
+            firsts = [(i, m.start()) for i, t in enumerate(texts) for m in re.finditer(first_pat, t)]
+            thens = [(i, m.start()) for i, t in enumerate(texts) for m in re.finditer(then_pat, t)]
+            if not firsts or not thens:
+                raise engine_s.Undecided("lost anchor in %s: no statement matches %s / %s" % (unit, first_pat, then_pat))
+            ok = max(firsts) < min(thens)
+            return [Ob("%s.S.order.%s" % (prop, name), "S", "structural", "statement order (vx skel)", DISCHARGED if ok else FAILED, time.time() - t0,
+                       what + (" — holds: positions %s precede %s" % (firsts, min(thens)) if ok else " — violated: statement %d (`%s`) does not precede statement %d (`%s`)" % (max(firsts)[0], texts[max(firsts)[0]][:60], min(thens)[0], texts[min(thens)[0]][:60])),
+                       functions=[unit], signature=None if ok else name)]
+        except engine_s.Undecided as e:
+            return [Ob("%s.S.order.%s" % (prop, name), "S", "structural", "statement order (vx skel)", UNDECIDED, time.time() - t0, str(e))]
+    return f
+
+
+SPECS = {}
+
+
+def prop(pid, **kw):
+    SPECS[pid] = kw
+
+
+prop("C20", v_dn=True, dn_bounded=True, k=True, level="proof",
+     explanation="Representation invariant + abstract-view postconditions of the real DistinguishedName::{new,get,remove,push,iter} and DistinguishedNameIterator::next, discharged by Verus for all edit histories (every operation preserves wf(), so induction over the history is implicit); lemmas restate them over the whole enumeration. Encoded order = enumeration order: the name writer iterates `dn.iter()` once, one SET{SEQ{OID,value}} per item (engine S), attribute OIDs per RFC table (engine K).",
+     assume=["s_abs", "kcfg"])
+
+prop("C15", v_dn=["dn.new", "dn.remove", "dn.push", "dn.iter", "dn.next", "dn.lemma.eq_iff_view"], k=True, level="other", scans=[scan_purity],
+     explanation="Determinism of name enumeration: the enumeration is a function of the edit history only (V: postconditions of push/remove/iter determine order and values, no dependence on the hash seed). Generation returns the parameters it was given: `signed_by`/`self_signed`/CRL `signed_by` move `self` into the result (S: result expression `params:self`; K: CRL params returned unchanged with the serializer stubbed). Writers take &self / & parameters only (rustc). Absence of shared mutable state is an assumption scan. Thread interleavings are NOT decided.",
+     assume=["threads", "s_abs", "kcfg", "hash"])
+
+prop("C03", v_dn=["dn.lemma.types_distinct", "dn.lemma.eq_iff_view", "dn.iter", "dn.next"], k=True, level="other",
+     explanation="Issuer name and AKI sources: every construction of the issuer view binds the issuer certificate's own name / key-id method / key (S: signed_by x3, self_signed), the issuer and subject names are written by the same writer from those values (S), the AKI value is PreSpecified(aki) => aki else derive(issuer method, issuer key SPKI) and the CA's SKI is derive(own method, own SPKI) (S + K keyid.prespecified, aki.bytes). Name enumeration is a function of the view (V). REFUTATION kept as known finding: a well-formed name cannot hold a repeated attribute type (V lemma), so imported subjects such as DC=com,DC=example cannot be preserved. Import path and validator verdicts are NOT decided.",
+     assume=["x509", "crypto", "s_abs", "kcfg"])
+
+prop("C02", v_dn=["dn.iter", "dn.next", "dn.lemma.lookup_agrees"], vc=["cert"], level="proof",
+     explanation="Leaf functions against RFC tables (K, full domains: key-usage bits, GeneralName tags, EKU / attribute OIDs, CIDR masks for all 256 prefixes, pre-specified key id, serial conversions, SPKI export); extension writers tied to bytes for fixed shapes (K: extension wrapper, AKI, key usage value for all 511 sets with the bit-string writer replaced by its verified contract); TBSCertificate composition (S): every writer function's emission normal form equals its RFC 5280 summary contract, and the generated VCs `present iff requested`, `at most once`, criticality, `[3] iff any requested`, `SKI in every CA`, v3.",
+     assume=["yasna", "crypto", "s_abs", "kcfg", "hash"])
+
+prop("C05", v_dn=["dn.lemma.empty_iff", "dn.new", "dn.remove", "dn.push"], vc=["cert", "crl", "csr"], level="proof",
+     explanation="Structural MUSTs as generated VCs over the emission normal forms (S): v3, criticality constants, empty name constraints omitted, no OID twice, CRL v2 with mandatory fields / AKI / CRL number, critical IDP when requested, revokedCertificates absent when empty, CSR version 0 with [0] attributes always and at most one extension request. SAN critical <=> subject empty: the writer passes `entries.is_empty()` (S) and map empty <=> enumeration empty under the invariant (V). Automatic serial: statement sequence digest -> first 20 octets -> clear top bit -> positive INTEGER (S, structural); `non-zero` is not decided (needs a property of SHA-256).",
+     assume=["yasna", "crypto", "s_abs", "kcfg"])
+
+prop("C07", vc=["csr"], level="proof",
+     explanation="Refusal rule: guard of Err(UnsupportedInCsr) <=> disjunction of the five unsupported fields, it dominates the signer call, and every supported parameter set is signed (S, all combinations, propositional); each unsupported field alone and none (K, six shapes, signer replaced by a recorder). CertificationRequestInfo shape, extension request present iff any of the four sources is non-empty, its contents, caller attributes verbatim (S). Parse-back round trip is NOT decided (x509-parser).",
+     assume=["yasna", "x509", "s_abs", "kcfg", "hash"])
+
+prop("C08", vc=["crl"], level="proof",
+     explanation="Refusal guards on the encoded instants and on cRLSign (K, all instants / all usage triples, serializer replaced by a recorder; S: guard expressions); TBSCertList and entry shape incl. GeneralizedTime invalidityDate, reason present when given / absent when none, entry extension wrapper never empty, IDP scope tags (S + K bytes for the three scopes); reason code numbers (K). Revocation verdicts of external checkers are NOT decided.",
+     assume=["yasna", "crypto", "s_abs", "kcfg", "hash"])
+
+prop("C09", level="proof",
+     explanation="Form and instant of the shared time writer for EVERY OffsetDateTime the time crate admits whose UTC year is in 0..=9999 (K, two full-domain harnesses through the real time and yasna code: UTCTime iff 1950..=2049, digits = instant in UTC truncated to seconds, trailing Z, no fraction); nanosecond stripping keeps the instant (K); every time field (notBefore, notAfter, thisUpdate, nextUpdate, revocationDate) is written by that function from the corresponding parameter (S).",
+     assume=["s_abs", "kcfg"])
+
+prop("C13", level="proof",
+     explanation="Admission <=> alphabet and lossless transfer encoding for every Unicode scalar value as a one-character string, per type (K, full domain); byte constructors for every input of length 0..=4 (K); accepted IA5 values satisfy yasna's writer precondition (K); the name writer passes the stored bytes / text under the type's string tag (S). Multi-character strings: bounded (thorough tier). Unbounded length is NOT decided (byte loops).",
+     assume=["yasna", "s_abs", "kcfg"])
+
+prop("C01", level="proof",
+     explanation="sign-and-wrap contract of sign_der (K, fixed shape, symbolic content): the signer sees exactly the embedded TBS bytes, outer AlgorithmIdentifier of the signing key, signature wrapped unmodified, signer / body error => Err and nothing signed; AlgorithmIdentifier tables = RFC bytes (K); inner AlgorithmIdentifier written from the same key object that signs (S: certificate, CRL, CSR units); per-key-kind signing arms pass `msg` to the signer and its result to the BIT STRING writer, algorithm <-> signing-constant pairing of the key loaders pinned (S). Validity of ring / aws-lc-rs signatures is assumed.",
+     assume=["crypto", "yasna", "s_abs", "kcfg"])
+
+prop("C11", level="other",
+     explanation="Algorithm equality / hash / lookup-by-OID mutually consistent over the whole table, unknown OIDs rejected (K); exported SubjectPublicKeyInfo = RFC AlgorithmIdentifier + BIT STRING of the raw key for Ed25519 / P-256 / RSA (K, fixed key length); loaders pair each algorithm with its signing constant, accessors return the stored algorithm / key bytes (S). Save/load through ring / aws-lc-rs is NOT decided (FFI).",
+     assume=["crypto", "yasna", "s_abs", "kcfg"])
+
+prop("C04", vc=[], level="other",
+     explanation="rcgen's own canonicity duties: named-bit-list length (K, all 511 sets), DEFAULT values omitted (S: ExplicitNoCa writes an empty SEQUENCE; critical written only when true), IDP scope TRUE only (S + K bytes), raw pass-through of caller DER (S: write_der(content()) / write_der(values)), minimal positive INTEGERs for serial / CRL number (S: write_bigint_bytes(.., true)), SET OF for CSR attributes (S), time forms (C09). yasna primitives used by rcgen are checked on the real yasna code for small shapes (K: BIT STRING padding, extension wrapper bytes). yasna as a whole is assumed.",
+     assume=["yasna", "s_abs", "kcfg", "hash"])
+
+
+# ------------------------------------------------------------------ C10: call sites of asserting DER writers
+ASSERTING = {"write_ia5_string", "write_printable_string", "write_oid", "write_utctime", "write_generalized_time",
+             "write_numeric_string", "write_visible_string", "write_bitvec_bytes"}
+# (unit, writer, argument) -> ("validated", why) | ("raw", replay site, witness)
+CALLSITES = {
+    ("CertificateParams::write_extension_request_attribute", "write_oid", "ObjectIdentifier::from_slice(oid::PKCS_9_AT_EXTENSION_REQUEST,)"): ("validated", "constant OID"),
+    ("CertificateParams::write_key_usage", "write_bitvec_bytes", "*"): ("validated", "precondition proved by K obligation ku.extension_value"),
+    ("CertificateParams::write_subject_alt_names", "write_ia5_string", "alt(elem(self.subject_alt_names)#Rfc822Name.0|elem(self.subject_alt_names)#DnsName.0|elem(self.subject_alt_names)#URI.0).as_str()"): ("validated", "Ia5String (K: ia5.accepted_serialises)"),
+    ("KeyPair::sign", "write_bitvec_bytes", "*"): ("validated", "bit length = 8 * byte length"),
+    ("serialize_public_key_der", "write_bitvec_bytes", "*"): ("validated", "bit length = 8 * byte length"),
+    ("SignatureAlgorithm::write_alg_ident", "write_oid", "self.alg_ident_oid()"): ("validated", "static algorithm table (K: algid.table.*)"),
+    ("SignatureAlgorithm::write_oids_sign_alg", "write_oid", "ObjectIdentifier::from_slice(elem(self.oids_sign_alg))"): ("validated", "static algorithm table (K: algid.table.*)"),
+    ("SignatureAlgorithm::write_params", "write_oid", "ObjectIdentifier::from_slice(self.params#RsaPss.hash_algorithm)"): ("validated", "static algorithm table"),
+    ("SignatureAlgorithm::write_params", "write_oid", "ObjectIdentifier::from_slice(ID_MGF1)"): ("validated", "constant OID"),
+    ("write_distinguished_name", "write_ia5_string", "elem(dn).1#Ia5String.0.as_str()"): ("validated", "Ia5String (K: ia5.accepted_serialises)"),
+    ("write_dt_utc_or_generalized", "write_utctime", "*"): ("validated", "K: time.form / time.instant under the year precondition; any year: finding time.any_year_no_panic"),
+    ("write_dt_utc_or_generalized", "write_generalized_time", "*"): ("validated", "K: time.form / time.instant under the year precondition; any year: finding time.any_year_no_panic"),
+    ("RevokedCertParams::write_der", "write_generalized_time", "dt_to_generalized(unwrap(self.invalidity_date))"): ("raw", "time_year_inv", "invalidity date with a year outside 0..=9999"),
+    ("CertificateParams::serialize_der_with_signer", "write_oid", "ObjectIdentifier::from_slice(elem(self.extended_key_usages).oid())"): ("raw", "eku_other_oid", "ExtendedKeyUsagePurpose::Other(vec![1])"),
+    ("CertificateParams::write_extended_key_usage", "write_oid", "ObjectIdentifier::from_slice(elem(self.extended_key_usages).oid())"): ("raw", "eku_other_oid", "ExtendedKeyUsagePurpose::Other(vec![1]) in a CSR"),
+    ("CertificateParams::serialize_request_with_attributes", "write_oid", "ObjectIdentifier::from_slice(elem(attrs).oid)"): ("raw", "csr_attr_oid", "Attribute { oid: &[1], .. }"),
+    ("CertificateParams::write_subject_alt_names", "write_oid", "ObjectIdentifier::from_slice(elem(self.subject_alt_names)#OtherName.0.0)"): ("raw", "san_othername_oid", "SanType::OtherName((vec![1], ..))"),
+    ("write_distinguished_name", "write_oid", "elem(dn).0.to_oid()"): ("raw", "custom_dn_oid", "DnType::CustomDnType(vec![1])"),
+    ("write_distribution_point_name_uris", "write_ia5_string", "elem(uris)"): ("raw", "crl_dp_uri", "CrlDistributionPoint { uris: vec![\"http://\\u{e9}\"] }"),
+    ("write_general_subtrees", "write_ia5_string", "alt(elem(general_subtrees)#Rfc822Name.0|elem(general_subtrees)#DnsName.0)"): ("raw", "nc_dns", "GeneralSubtree::DnsName(\"\\u{e9}\")"),
+    ("write_x509_extension", "write_oid", "ObjectIdentifier::from_slice(extension_oid)"): ("raw", "custom_ext_oid", "CustomExtension::from_oid_content(&[1], ..)"),
+}
+
+
+def s_callsites(prop):
+    import engine_s
+    t0 = time.time()
+    obs = []
+    try:
+        units, enums = engine_s.skeleton()
+        seen = {}
+        for name, u in sorted(units.items()):
+            if not u.get("writer"):
+                continue
+            nf, at, _ = engine_s.normal_form(name, options=("self.name_constraints", "self.serial_number", "self.reason_code", "self.invalidity_date", "self.scope", "self.issuing_distribution_point"))
+            lets = {}
+
+            def walk(ns):
+                for n in ns:
+                    if n["kind"] == "let":
+                        lets[n["attrs"][0]] = n["attrs"][1]
+                    if n["kind"] == "prim" and n["attrs"][0] in ASSERTING:
+                        args = [re.sub(r'\$L\d+', lambda m: lets.get(m.group(0), m.group(0)), x) for x in n["attrs"][1:]]
+                        seen[(name, n["attrs"][0], args[0] if args else "")] = n.get("line")
+                    walk(n["children"])
+            walk(nf)
+    except engine_s.Undecided as e:
+        return [Ob(prop + ".S.callsites", "S", "structural", "vx skel", UNDECIDED, time.time() - t0, str(e))]
+    unknown, raw = [], {}
+    for (unit, prim, arg), line in seen.items():
+        cls = CALLSITES.get((unit, prim, arg)) or CALLSITES.get((unit, prim, "*"))
+        if cls is None:
+            unknown.append("%s: %s(%s) at line %s" % (unit, prim, arg[:80], line))
+        elif cls[0] == "raw":
+            raw.setdefault(cls[1], []).append((unit, prim, arg, line, cls[2]))
+    obs.append(Ob(prop + ".S.callsites.classified", "S", "structural", "vx skel + table", DISCHARGED if not unknown else FAILED, time.time() - t0,
+                  "%d call sites of asserting DER writers (IA5 / printable / OID / time / bit string); every one is classified as fed by a validated type, a constant, a K-proved precondition, or a raw public field" % len(seen)
+                  if not unknown else "unclassified call site(s) of an asserting DER writer (a new way to hand unvalidated data to a panicking writer): " + "; ".join(unknown),
+                  signature=None if not unknown else "unclassified call site", functions=sorted(set(k[0] for k in seen))))
+    # each raw site: a finding obligation witnessed natively
+    ok, err = rebuild_replay()
+    for site, lst in sorted(raw.items()):
+        oid = "%s.callsite.%s" % (prop, site)
+        inp = {"site": site}
+        if site.startswith("time_year"):
+            inp = {"site": "time_year", "dt": {"year": -5, "ordinal": 10}}
+        if site in ("crl_dp_uri", "nc_dns", "nc_rfc822", "crl_idp_uri"):
+            inp["text"] = "http://\u00e9"
+        p = os.path.join(CACHE, "site-%s-%d.json" % (site, os.getpid()))
+        json.dump({"obligation": oid, "kind": "panic_site", "input": inp}, open(p, "w"))
+        rep, out = run_replay(p) if ok else (None, {"error": err})
+        os.remove(p)
+        where = "; ".join("%s line %s" % (u, l) for u, _, _, l, _ in lst)
+        if rep is True:
+            obs.append(Ob(oid, "S", "bounded", "native replay (witness input)", FAILED, 0, "raw public field reaches an asserting DER writer (%s); witness %s panics" % (where, lst[0][4]),
+                          signature="panic", finding=True, replay={"kind": "panic_site", "input": inp}, bound="one witness input"))
+        elif rep is False:
+            obs.append(Ob(oid, "S", "bounded", "native replay (witness input)", DISCHARGED, 0, "witness %s no longer panics (%s)" % (lst[0][4], where), finding=True, bound="one witness input"))
+        else:
+            obs.append(Ob(oid, "S", "bounded", "native replay (witness input)", UNDECIDED, 0, "witness could not be run: %s" % json.dumps(out)[:200], finding=True))
+    return obs
+
+
+def s_const(name, file, expected, oname):
+    def f(prop):
+        import engine_s, verus_unit as vu
+        t0 = time.time()
+        try:
+            it, src = vu.find_item(REPO, file, "const " + name)
+            got = engine_s.canon(src[it["start"]:it["end"]].decode())
+            ok = got == expected
+            return [Ob("%s.S.const.%s" % (prop, oname), "S", "structural", "vx index", DISCHARGED if ok else FAILED, time.time() - t0,
+                       "const %s = %s" % (name, got) if ok else "const %s differs: `%s`, required `%s`" % (name, got, expected), signature=None if ok else oname)]
+        except vu.LostAnchor as e:
+            return [Ob("%s.S.const.%s" % (prop, oname), "S", "structural", "vx index", UNDECIDED, time.time() - t0, str(e))]
+    return f
+
+
+ENCODE_CONFIG_TEXT = 'constENCODE_CONFIG:pem::EncodeConfig={letline_ending=matchcfg!(target_family="windows"){true=>pem::LineEnding::CRLF,false=>pem::LineEnding::LF,};pem::EncodeConfig::new().set_line_ending(line_ending)};'
+
+prop("C06", level="other",
+     s_extra=[s_order("CertificateSigningRequestParams::from_der", r'verify_signature\(\)', r'certification_request_info|signature_algorithm|requested_extensions', "verify_before_use",
+                      "the signature check (propagated with ?) precedes every use of the parsed request")],
+     explanation="Structural contract of the CSR parser (S): the signature check is the first use of the parsed request and its error is propagated with `?` before `info`, the algorithm or the requested extensions are read; every extension outside KeyUsage / SubjectAlternativeName / ExtendedKeyUsage and every non-standard EKU returns Err(UnsupportedExtension) (the normal form of from_der is pinned by its summary contract); from_pem delegates to from_der; issuance writes the SPKI from the request's own key object (S: signed_by passes self.public_key to the serializer and to the stored SPKI) through serialize_public_key_der (S + K bytes). Soundness of x509-parser's verify_signature and everything about arbitrary byte strings are NOT decided.",
+     assume=["x509", "crypto", "s_abs", "kcfg"])
+
+prop("C10", level="other", s_extra=[s_callsites],
+     explanation="Generation side only. Exact panic preconditions of the asserting DER writers rcgen calls are established by K (IA5: ASCII; time: UTC year 0..=9999; bit string: length consistency; OID arcs) and every call site of such a writer is classified (S) as fed by a validated type / constant / K-proved precondition, or by a raw public field — the latter are the recorded findings, each witnessed natively. Every K harness runs with Kani's panic / overflow / bounds checks on, so each completed harness is also a panic-freedom result for its shape (string constructors for all characters, time writer, leaf functions). Parsing entry points (x509-parser, ring, pem) are NOT decided.",
+     assume=["x509", "crypto", "pem", "yasna", "s_abs", "kcfg"])
+
+prop("C14", level="other", k=False,
+     s_extra=[s_const("ENCODE_CONFIG", "rcgen/src/lib.rs", ENCODE_CONFIG_TEXT, "encode_config")],
+     explanation="S only: each of the five PEM accessors is `pem::encode_config(&Pem::new(<RFC 7468 label>, <the DER accessor of the same object>), ENCODE_CONFIG)` with labels CERTIFICATE / CERTIFICATE REQUEST / X509 CRL / PRIVATE KEY / PUBLIC KEY; ENCODE_CONFIG selects LF unless target_family = windows; each loader is pem::parse followed by the DER entry point on the decoded contents. The behaviour of the pem / base64 crates (64-column lines, padding, strict decoding) is an ASSUMED contract.",
+     assume=["pem", "s_abs"])
+
+prop("C17", level="other",
+     explanation="Inverse pairs the importer relies on (K, x509-parser build): from_u16(fold(to_u16)) = identity on all 512 key-usage sets in RFC order; IP octet lengths 4 / 16 accepted, everything else rejected; subnet bytes = address || mask (to_bytes); attribute OID table round trip. The field-by-field converters over x509-parser's parsed certificate are pinned structurally by their summary contracts (S) but their semantics over arbitrary certificates is NOT decided.",
+     assume=["x509", "s_abs", "kcfg"])
+
+prop("C18", level="other",
+     s_extra=[s_order("main", r'\.build\(', r'\.write\(', "build_before_write", "both certificates are built (and both build errors propagated) before the first file is written")],
+     explanation="S: in main both build() calls precede the first write(); builder postconditions as pinned normal forms (CA: Ca(Unconstrained) + digitalSignature, keyCertSign, cRLSign; end entity: NoCa, AKI on, digitalSignature; client_auth / server_auth insert once; key and certificate of a pair come from the same key object; file names {name}.key.pem / {name}.pem; IP literals become IP SANs, everything else DNS names). K: EKU insertion idempotent. Process exit status, argument parsing and files on disk are NOT decided.",
+     assume=["crypto", "s_abs", "kcfg"])
 
 
 def main(argv):
     if not argv:
-        print(__doc__)
+        print("usage: ./check <Cxx> [--tier quick|thorough] | --replay FILE | --clean")
         return 2
     if argv[0] == "--clean":
         shutil.rmtree(os.path.join(CACHE, "verus"), ignore_errors=True)
         shutil.rmtree(SCRATCH_ROOT, ignore_errors=True)
+        for d in os.listdir(CACHE) if os.path.isdir(CACHE) else []:
+            if d.startswith("kani-target"):
+                shutil.rmtree(os.path.join(CACHE, d), ignore_errors=True)
         return 0
     if argv[0] == "--replay":
         ensure_tools()
+        body = json.load(open(argv[1]))
+        if body.get("kind") in (None, "none") or body.get("input") is None:
+            print(json.dumps({"obligation": body.get("obligation"), "note": "the verifier gave no concrete input for this obligation (no-failing-input-found); the verifier output is kept in the file", "verifier_output": (body.get("verifier_output") or "")[:2000]}, indent=1))
+            return 2
         rep, out = run_replay(argv[1])
         print(json.dumps(out, indent=1))
         return 1 if rep is True else (0 if rep is False else 2)
-    prop = argv[0]
+    pid = argv[0]
     tier = os.environ.get("VERIF_TIER", "quick")
     if "--tier" in argv:
         tier = argv[argv.index("--tier") + 1]
-    if prop not in PROPS:
-        print("no check for %s" % prop)
+    if pid not in SPECS:
+        print("no check for %s" % pid)
         return 2
     ensure_tools()
     t0 = time.time()
-    return PROPS[prop](tier, t0)
+    return run(pid, tier, t0, SPECS[pid])
